@@ -99,6 +99,7 @@ def check(ctx, rep):
     rep.rule("R17l", "the content, condition, attributes and omit-tag commands treat the value of their expression as TAL prescribes - nothing, "
              "default, and real values including 0, the empty string and empty sequences: each handler is evaluated by the walker on "
              "representative values and the interpreter's registers are compared", floor=3)
+    rep.rule("R17o", "a metal:fill-slot fills the nearest enclosing metal:use-macro (compiler evaluated with nested use-macro elements open)", floor=1)
     rep.rule("R17n", "the slot fillers of a metal:use-macro are gone once its expansion has returned: the register popProgram() restores is cleared "
              "right after the restore", floor=1)
     rep.rule("R17m", "tal:define: each statement is local unless it says global, statements take effect in source order (a later statement sees "
@@ -586,6 +587,7 @@ def check(ctx, rep):
     # ------------------------------------------------------------------ R17m
     define_evaluation_obligations(ctx, rep, "R17m", mod)
     slot_parameter_obligations(ctx, rep, "R17n", mod)
+    fill_slot_owner_obligations(ctx, rep, "R17o", mod)
 
     # ------------------------------------------------------------------ R17i
     ctxcls = tales.classes.get("Context")
@@ -874,6 +876,69 @@ def slot_parameter_obligations(ctx, rep, rule, mod):
             problems.append(f"`self.{reg}` is neither saved around a nested program nor cleared when one starts")
     rep.add(rule, f"TemplateInterpreter: slot fillers (`self.{reg}`) are consumed by the expansion they were given to [{n} restore sites]", not problems,
             ctx.where(pp), "; ".join(problems[:2]), key=f"{rule}|slots")
+
+
+
+def fill_slot_owner_obligations(ctx, rep, rule, mod):
+    """A metal:fill-slot belongs to the nearest enclosing metal:use-macro: the compiler's search through the open tags is evaluated
+    with two use-macro elements open, one inside the other."""
+    from ..paths import Const, PathLimit, Walker
+
+    prog = ctx.prog
+    comp = mod.classes.get("TemplateCompiler")
+    f = prog.resolve_method(comp, "compileMetalFillSlot") if comp else None
+    if f is None or len(f.params) < 2:
+        rep.fail(rule, "TemplateCompiler.compileMetalFillSlot", detail="fill-slot compiler not found")
+        return
+    idx = None
+    for n in ast.walk(f.node):
+        if isinstance(n, ast.Assign) and isinstance(n.targets[0], ast.Subscript) and norm(n.targets[0].value) == "self.commandList" \
+                and isinstance(n.targets[0].slice, ast.Name):
+            idx = n.targets[0].slice.id
+    if idx is None:
+        rep.fail(rule, f.qualname, ctx.where(f), "the update of the use-macro command was not found")
+        return
+    OUTER, INNER = 3, 8
+    stacks = {"two nested use-macro elements, the slot inside the inner one": ([(("div", []), None, OUTER), (("p", []), None, None), (("span", []), None, INNER), (("b", []), None, None)], INNER),
+              "one use-macro element": ([(("html", []), None, None), (("div", []), None, OUTER), (("b", []), None, None)], OUTER),
+              "the slot directly on a child of the inner use-macro": ([(("div", []), None, OUTER), (("span", []), None, INNER)], INNER)}
+    cmds = [(0, ())] * 12
+    cmds[OUTER] = (15, ("outer", {}, 20))
+    cmds[INNER] = (15, ("inner", {}, 21))
+    problems, n = [], 0
+    for label, (stack, want) in stacks.items():
+        facts = {"self.tagStack": Const(list(stack)), "self.commandList": Const(list(cmds)), "self.endTagSymbol": Const(9)}
+
+        def cv(call, target, st):
+            fn = call.func
+            if isinstance(fn, ast.Attribute) and fn.attr in ("debug", "error", "info", "warn"):
+                return Const(None)
+            if (dotted(fn) or "").endswith("SubTemplate"):
+                return Const("<slot>")
+            return None
+
+        w = Walker(prog, ctx.resolver, call_value=cv, exact_loops=True, unroll=8, max_paths=2000, assumptions=dict(facts),
+                   inline=lambda fn, t, d: d < 3 and (t.bound_cls is not None or (fn.cls is None and fn.module.name.startswith("simpletal")))
+                   and fn.name not in ("tagAsText",))
+        outs = set()
+        try:
+            for p in w.run(f, comp, env={f.params[1]: Const("title")}, facts=dict(facts)):
+                if p.kind == "raise":
+                    outs.add("raises " + str(p.value))
+                else:
+                    v = p.state.env.get(idx)
+                    outs.add(v.value if v is not None and v.kind == "const" else "?")
+        except (PathLimit, Exception):
+            outs = {"?"}
+        if len(outs) != 1 or "?" in outs:
+            continue
+        n += 1
+        got = next(iter(outs))
+        if got != want:
+            problems.append(f"with {label}, the filler goes to {'the outer' if got == OUTER else got!r} use-macro instead of {'the inner' if want == INNER else 'that'} one")
+    rep.add(rule, f"{f.qualname}: a fill-slot belongs to the nearest enclosing use-macro [{n} of {len(stacks)} evaluated]", not problems and n >= 2, ctx.where(f),
+            "; ".join(problems[:2]) if problems else ("" if n >= 2 else "the walker could not follow the search through the open tags"),
+            key=f"{rule}|fillslot", nontrivial=n > 0)
 
 
 # ---------------------------------------------------------------------------------------------- R17l
